@@ -411,17 +411,25 @@ def run_history(w, hist_index: int) -> None:
 
 def fixed_histories():
     """Hand-written histories for orders of definition and decoration that random histories hit too rarely."""
+    root_style = ["dbc"]
+
     def cls(name, bases, invs=()):
-        return {"name": name, "bases": list(bases), "dbc": True, "invs": list(invs), "class_body": [], "aliases": [],
+        spec = {"name": name, "bases": list(bases), "dbc": True, "invs": list(invs), "class_body": [], "aliases": [],
                 "members": [{"name": "m_" + name[-1], "kind": "method", "async": False, "params": [prog.P("self"), prog.P("x")], "decos": []}]}
+        if not bases:
+            # the root of the hierarchy derives from DBC, or is created through the meta-class directly
+            spec["root"] = root_style[0]
+        return spec
 
     def inv(iid, check_on):
         return {"id": iid, "check_on": check_on, "err": "instance", "self": True, "form": "def"}
 
-    for base_kind in CHECK_ONS:
+    for style in ("dbc", "metaclass"):
+      root_style[0] = style
+      for base_kind in CHECK_ONS:
         for sub_kind in CHECK_ONS:
             # the base gets its invariant only after the subclasses exist; then a subclass is decorated
-            yield ("base-decorated-after-subclasses", base_kind, sub_kind), [
+            yield ("base-decorated-after-subclasses", base_kind, sub_kind, style), [
                 cls("KA", []), cls("KB", ["KA"]), cls("KC", ["KA"]),
                 {"decorate_inv": {"cls": "KA", "inv": inv("ja", base_kind)}},
                 {"decorate_inv": {"cls": "KB", "inv": inv("jb", sub_kind)}},
@@ -429,7 +437,7 @@ def fixed_histories():
                 {"decorate_inv": {"cls": "KC", "inv": inv("jc", sub_kind)}},
             ]
             # base with invariants of one kind only; subclasses decorated with the other kind, a sibling created afterwards
-            yield ("sibling-created-after-decoration", base_kind, sub_kind), [
+            yield ("sibling-created-after-decoration", base_kind, sub_kind, style), [
                 cls("KA", [], [inv("ja", base_kind)]), cls("KL", ["KA"], [inv("jl", sub_kind)]),
                 cls("KR", ["KA"], [inv("jr", sub_kind)]), cls("KS", ["KA"]),
                 {"decorate_inv": {"cls": "KS", "inv": inv("js", sub_kind)}},
